@@ -21,6 +21,8 @@ type decTr struct {
 	dropAssignFrom map[string]bool
 	// inside the body of `go func() {...}()`: a bare return ends the goroutine, not the function
 	inGo bool
+	// opaqueGo: `go func() {...}()` is one effect whose text is the goroutine's source
+	opaqueGo bool
 }
 
 func (t *decTr) render(e ast.Expr) string {
@@ -170,6 +172,44 @@ func (t *decTr) stmt(s ast.Stmt) string {
 				return "DIf (DAtom " + q("ready "+recvText) + ") " + aBody + " " + dBody
 			}
 		}
+		// select { case c1: A1; case c2: A2; ... } (blocking): a switch on WHICH communication happens,
+		// `DSwitch "select"`: the environment chooses the case by the text of its communication
+		{
+			var cases []string
+			okAll := true
+			for _, cl := range x.Body.List {
+				cc := cl.(*ast.CommClause)
+				label := ""
+				switch cm := cc.Comm.(type) {
+				case nil:
+					label = ""
+				case *ast.ExprStmt:
+					label = t.render(cm.X)
+				case *ast.AssignStmt:
+					if len(cm.Lhs) >= 1 && len(cm.Rhs) == 1 {
+						var ls []string
+						for _, l := range cm.Lhs {
+							ls = append(ls, t.render(l))
+						}
+						label = strings.Join(ls, ", ") + " " + cm.Tok.String() + " " + t.render(cm.Rhs[0])
+					} else {
+						okAll = false
+					}
+				case *ast.SendStmt:
+					label = t.render(cm.Chan) + " <- " + t.render(cm.Value)
+				default:
+					okAll = false
+				}
+				if cc.Comm == nil {
+					cases = append(cases, "([], "+t.stmts(cc.Body)+")")
+				} else {
+					cases = append(cases, "(["+q(label)+"], "+t.stmts(cc.Body)+")")
+				}
+			}
+			if okAll {
+				return "DSwitch " + q("select") + " [" + strings.Join(cases, "; ") + "]"
+			}
+		}
 	case *ast.ForStmt:
 		// for { body }: a loop that only a return (or break) ends: `DRange "_" "forever"` — the environment
 		// says how many iterations are looked at
@@ -263,6 +303,9 @@ func (t *decTr) stmt(s ast.Stmt) string {
 		// go func() { body }(): the body runs once, as the body of a one-iteration loop `DRange "go" "once"`,
 		// so that a bare return inside it (DBreak) ends the goroutine and the caller's code goes on
 		// (the callers translated here wait at once for what the goroutine sends)
+		if t.opaqueGo {
+			return "DCall " + q("go "+t.render(x.Call))
+		}
 		if fl, ok := x.Call.Fun.(*ast.FuncLit); ok && len(x.Call.Args) == 0 && !t.inGo {
 			t.inGo = true
 			body := t.stmts(fl.Body.List)
@@ -325,6 +368,10 @@ func decisionFunc(rel, fn string, drop ...string) string {
 	}
 	t := &decTr{g: load(rel), dropAssignFrom: map[string]bool{}}
 	for _, d := range drop {
+		if d == "@opaque-go" {
+			t.opaqueGo = true
+			continue
+		}
 		t.dropAssignFrom[d] = true
 	}
 	return t.stmts(fd.Body.List)
